@@ -90,3 +90,28 @@ def extract_method_body(func, name, params, returns):
     body = "\n".join(textwrap.indent(ast.unparse(st), "    ") for st in stmts)
     src = "def %s(%s):\n%s\n    return %s\n" % (name, ", ".join(params), body, ", ".join(returns))
     return src, "", fd.lineno
+
+
+def extract_assignments(func, name, params, returns, targets):
+    """program slice: the top-level assignment statements of the function whose targets are among `targets` (in source order), as a stand-alone function.
+    Everything else of the function is dropped; the values the slice reads from the rest enter as parameters."""
+    f = getattr(func, "py_func", func)
+    f = getattr(f, "__wrapped__", f)
+    fd = ast.parse(textwrap.dedent(inspect.getsource(f))).body[0]
+    picked = []
+    for st in fd.body:
+        if isinstance(st, (ast.Assign, ast.AugAssign)):
+            tg = st.targets if isinstance(st, ast.Assign) else [st.target]
+            names = set()
+            for t in tg:
+                for node in ast.walk(t):
+                    if isinstance(node, ast.Name):
+                        names.add(node.id)
+                        break
+            if names & set(targets):
+                picked.append(st)
+    if not picked:
+        raise LookupError("no top-level assignment to %s in %s" % (sorted(targets), fd.name))
+    body = "\n".join(textwrap.indent(ast.unparse(st), "    ") for st in picked)
+    src = "def %s(%s):\n%s\n    return %s\n" % (name, ", ".join(params), body, ", ".join(returns))
+    return src, "", picked[0].lineno
